@@ -472,6 +472,7 @@ def check_C10(F, tier, t0):
     guarded(R, 'X9', engine_x.rule_X9, F, R)
     guarded(R, 'X12', engine_x.rule_X12, F, R)
     guarded(R, 'X12 header', engine_x.rule_X12_header, F, R)
+    guarded(R, 'X4 header call', engine_x.rule_X4_header_call, F, R)
     # the header is free_vars: it is right only if the free-variable analysis is
     E = make_engine(F)
     guarded(R, 'S var_is_free', run_S, R, E, [FRF], spec_bdd.B, False)
